@@ -4,6 +4,7 @@ from common import *
 import e2, mirdump
 from e2 import *
 from mirsym import models as MD
+from mirsym.sym import derives_from
 from props import tlsglue, dial, C04
 from props.cmodels import *
 
@@ -66,6 +67,48 @@ def ob_connecting_result(report):
                    ['ConnectionManager::handle_connecting_result'], {'inline_depth': 2}, body)
 
 
+def ob_connect_request(report):
+    """an explicit connect request is only ever answered by a dial: handle_connect_request hands (address, expected id, reply
+    channel) to exactly one dial task and never replies itself"""
+    def body(ob):
+        def m_spawn(ex, p, call, k):
+            p.events.append(Event('spawn', 'JoinSet::spawn', (call.args[1],)))
+            k(p, Sym(f'abort_handle{p.seq("ah")}', 'AbortHandle'))
+
+        def m_send(ex, p, call, k):
+            p.events.append(Event('reply', 'oneshot::Sender::send', (call.args[0], call.args[1])))
+            k(p, Sym(f'send_result{p.seq("sr")}', 'Result'))
+        ex = e2.executor('anemo', CONNECTION_MODELS + [(r'JoinSet::spawn$', m_spawn), (r'oneshot::Sender::send$', m_send)], max_depth=4)
+        fn = find_method(ex.prog, 'ConnectionManager', 'handle_connect_request')
+        addr, pid, tx = Sym('addr', 'Address'), Sym('wanted', 'Option<PeerId>'), Sym('reply_tx', 'oneshot::Sender<Result<PeerId>>')
+        res = ex.run(fn, [Ptr(('H', 'cm', 'ConnectionManager'), (), True), addr, pid, tx])
+        n = 0
+        for r in res:
+            if r.tag != 'return':
+                if r.tag == 'panic' and poison_panic(r):
+                    continue
+                return viol(ob, [ex], f'handle_connect_request can {r.tag}', 'connect-abnormal', path_summary(r), len(res))
+            rp = [e for e in r.events if e.kind == 'reply']
+            sp = [e for e in r.events if e.kind == 'spawn']
+            if rp:
+                return viol(ob, [ex], f'a connect request is answered ({vrepr(rp[0].args[1])[:80]}) without a dial: no TLS handshake and no identity check back this reply',
+                            'connect-reply-without-dial', path_summary(r), len(res))
+            if len(sp) != 1:
+                return viol(ob, [ex], f'a connect request starts {len(sp)} dial tasks (must be exactly one)', 'connect-dial-count', path_summary(r), len(res))
+            fut = sp[0].args[0]
+            got = {nm: derives_from(fut, (lambda v, nm=nm: isinstance(v, Sym) and v.name == nm), ex=ex, p=r.path) for nm in ('addr', 'wanted', 'reply_tx')}
+            if not all(got.values()) or not derives_from(fut, lambda v: isinstance(v, Sym) and v.get_ov('head') is not None and 'dial_peer_task' in str(v.get_ov('head').text if hasattr(v.get_ov('head'), 'text') else ''), ex=ex, p=r.path) \
+                    and not all(got.values()):
+                return viol(ob, [ex], f'the dial task does not receive the request\'s own address / expected identity / reply channel: {got}', 'connect-dial-args', path_summary(r), len(res))
+            n += 1
+        if not n:
+            return ob.done([ex], 'inconclusive', 'no path', paths=len(res))
+        ob.done([ex], 'held', '', {'paths': len(res)}, paths=len(res))
+    return guarded(report, 'connect_request_is_dialed', 'ConnectionManager::handle_connect_request: exactly one dial task is spawned with the request\'s own address, expected identity and reply '
+                   'channel; nothing is replied before that dial ran (so every Ok a caller sees went through the pinned TLS handshake and the acknowledgement)',
+                   ['ConnectionManager::handle_connect_request', 'ConnectionManager::dial_peer'], {'inline_depth': 4}, body)
+
+
 def ob_handshake(report):
     def body(ob):
         ex = e2.executor('anemo', CONNECTION_MODELS, max_depth=1)
@@ -122,7 +165,7 @@ def check(report, tier, only=None):
     report.outside += ['that TLS actually fails for an impostor (cryptographic trust base)', 'loss during the handshake, concurrent dials', 'quinn connect_with plumbing']
     obs = [('pinned', lambda rep: tlsglue.ob_expected_verifier(rep, PROP)), ('expected_identity', lambda rep: tlsglue.ob_expected_id_flow(rep, PROP)),
            ('signature', lambda rep: tlsglue.ob_signature_delegation(rep, PROP)), ('dial_waits', lambda rep: dial.ob_dial_task(rep, PROP)),
-           ('dial_result', ob_connecting_result), ('handshake', ob_handshake), ('add_transition', C04.ob_add)]
+           ('dial_result', ob_connecting_result), ('connect_request', ob_connect_request), ('handshake', ob_handshake), ('add_transition', C04.ob_add)]
     for n, f in obs:
         if only and not any(s in n for s in only):
             continue
